@@ -492,8 +492,10 @@ static void build_transmissions(void)
                 unsigned a[13] = { TRIP(41, 0x04, 0), TRIP(5, 0x0F, 0x2A), TRIP(6, 0x09, 0x41), TRIP(10, 0x12, 0x65),
                                    TRIP(42, 0x04, 0), TRIP(0, 0x0F, 0x30), TRIP(39, 0x0F, 0x31), TRIP(43, 0x04, 0),
                                    TRIP(7, 0x0F, 0x32), TRIP(8, 0x11, 0x61), TRIP(9, 0x09, 0x42), TRIP(20, 0x0F, 0x33), TRIP(21, 0x0F, 0x34) };
+                /* the PDC triplet (row group, mode 0x08) carries 43 in its address field without moving the active position:
+                 * the character behind it still belongs to row 12, and row 3 column 3 stays a level one cell (seed C03-8) */
                 unsigned b[13] = { TRIP(22, 0x0F, 0x35), TRIP(52, 0x04, 0), TRIP(1, 0x0F, 0x36), TRIP(2, 0x13, 0x6F),
-                                   TRIP(63, 0x1F, 0x07), TRIP(63, 0x1F, 0x07), TRIP(63, 0x1F, 0x07), TRIP(63, 0x1F, 0x07),
+                                   TRIP(43, 0x08, 0x10), TRIP(3, 0x0F, 0x37), TRIP(63, 0x1F, 0x07), TRIP(63, 0x1F, 0x07),
                                    TRIP(63, 0x1F, 0x07), TRIP(63, 0x1F, 0x07), TRIP(63, 0x1F, 0x07), TRIP(63, 0x1F, 0x07), TRIP(63, 0x1F, 0x07) };
                 int rs = 0;
                 tx_header(t, 1, 0x00, 0, 0);
